@@ -4741,7 +4741,7 @@ def Attack_rate_discrete(Pk, p, rho = None, Sk0=None,
     def psihat(x):
         return sum(Pk[k]*Sk0[k]*x**k for k in Pk.keys())
     def psihatPrime(x):
-        return sum(k*Pk[k]*Sk0[k]*x**(k-1) for k in Pk.keys())
+        return sum(k*Pk[k]*Sk0[k]*x**(k-1) for k in Pk.keys() if k>0)
 
     if phiS0 == None:
         phiS0 = psihatPrime(1)/sum(k*Pk[k] for k in Pk.keys())
@@ -4856,7 +4856,7 @@ def Attack_rate_cts_time(Pk, tau, gamma, number_its =100, rho = None,
     def psihat(x):
         return sum(Pk[k]*Sk0[k]*x**k for k in Pk.keys())
     def psihatPrime(x):
-        return sum(k*Pk[k]*Sk0[k]*x**(k-1) for k in Pk.keys())
+        return sum(k*Pk[k]*Sk0[k]*x**(k-1) for k in Pk.keys() if k>0)
 
     if phiS0 == None:
         phiS0 = psihatPrime(1)/sum(k*Pk[k] for k in Pk.keys())
